@@ -57,7 +57,10 @@ def run(res, tier, seed, replay):
             return s, vpl.run_harness(exe, ["--tier", tier, "--seed", s, "--only", only], timeout=2400)
         with ThreadPoolExecutor(12) as ex:
             for s, (rc, out, err) in ex.map(one, jobs):
-                if rc != 0:
+                if rc == -9:
+                    # the harness group exceeded the check's own time limit: timing is not modelled, never an alarm
+                    res.notes.append("harness group did not finish within the time limit (inconclusive): seed %s" % s)
+                elif rc != 0:
                     res.violation("harness-crash", "harness c17 exited with %d: %s" % (rc, err[-800:]),
                                   dict(kind="harness", cmd="c17 --tier %s --seed %d" % (tier, s), stderr=err[-2000:]))
                 outs.append((s, out))
